@@ -126,7 +126,7 @@ static void gen_action(Rng &r, unsigned len, bool subst, Bytes &a, unsigned numU
         }
         w8(a, r.chance(1, 6) && subst ? COPY_NEXT : NEXT);
     }
-    if (r.chance(2, 3)) w8(a, RET_ZERO);
+    if (r.chance(2, 3)) w8(a, r.chance(1, 5) ? RET_TRUE : RET_ZERO);
     else { w8(a, PUSH_BYTE); w8(a, u8(i64(int(r.below(5)) - 2))); w8(a, POP_RET); }
 }
 
